@@ -82,8 +82,8 @@ CHECKS["C11"] = dict(
   note="Trusted: blockchain.HashMerkleBranches; wire.MsgMerkleBlock.AddTxHash.",
   ref="§3 C11, §2.4")
 CHECKS["C14"] = dict(
-  technique="inter-procedural constant reaching through the With... chain, symbolic byte windows, ordered writer-call sequences, must-pass-through facts for content inclusion, structural latch check of every builder method",
-  text="DefaultP=19 and DefaultM=784931 and both block-filter entry points reach the P and M setters with exactly these constants; the key is hash[0:16]; NBytes/NPBytes/PBytes write VarInt(N) [, P], data in the stated order and FromNBytes reads the VarInt before handing the rest on; spent outpoints are added only for transaction index != 0 and scripts only when non-empty, de-duplicated through a map keyed by the entry bytes; filter hash = SHA256d(NBytes()), header = SHA256d(filter hash at 0 || previous header at 32); every chain method tests the error latch first and returns the builder untouched, terminal methods report the latched error, P>32 and M>2^32-1 set the latch. The 64x64->128 multiply and the Golomb-Rice bit stream are not decided.",
+  technique="inter-procedural constant reaching through the With... chain, symbolic byte windows, ordered writer-call sequences, must-pass-through facts for content inclusion, structural latch check of every builder method, exact polynomial normalisation (integer polynomials over 32-bit digits and floor atoms, with per-value upper bounds) of the limb multiplication",
+  text="DefaultP=19 and DefaultM=784931 and both block-filter entry points reach the P and M setters with exactly these constants; the key is hash[0:16]; NBytes/NPBytes/PBytes write VarInt(N) [, P], data in the stated order and FromNBytes reads the VarInt before handing the rest on; spent outpoints are added only for transaction index != 0 and scripts only when non-empty, de-duplicated through a map keyed by the entry bytes; filter hash = SHA256d(NBytes()), header = SHA256d(filter hash at 0 || previous header at 32); every chain method tests the error latch first and returns the builder untouched, terminal methods report the latched error, P>32 and M>2^32-1 set the latch. The Golomb-Rice bit stream as a value-level encoding is not decided (the 64x64->128 multiply is: see the sweep clause below).",
   note="Trusted: wire VarInt = CompactSize; chainhash.DoubleHashH; constants stated in the property.",
   ref="§3 C14")
 CHECKS["C16"] = dict(
@@ -207,6 +207,24 @@ ADDED6B = {
  "C20": " No unguarded package-level state behind bloom.Filter and gcs.Filter (C20.shared).",
 }
 for k, v in ADDED6B.items():
+    CHECKS[k]["text"] += v
+ADDED7 = {
+ "C01": " Round 7 and the syntactic mutation sweep: the hash-taking constructors accept exactly the specified lengths; NewAddressPubKey refuses on the parser's verdict only; the prefix setter stores its argument; the SLP constructors re-label every address they return; no constructor of the anchored files returns (nil, nil).",
+ "C02": " Round 7: the separator search uses a sentinel that cannot collide with an index; decode arms are not shadowed by an earlier case.",
+ "C03": " Round 7: a character outside the charset is refused, not mapped.",
+ "C04": " Round 7 and sweep: NewMaster refuses seed lengths only outside 16..64 and on the documented conditions; the hardened-from-public guard covers every path; Address() hashes the compressed public key; Child never returns (nil, nil).",
+ "C06": " Round 7: IsForNet's constant verdicts sit on the matching edges of the magic comparison.",
+ "C07": " Sweep: bech32.Decode refuses a character only outside 33..126 and ConvertBits a group width only outside 1..8; what ConvertBits does after its last byte is decided over the finite domain (pad, pending count 0 / 1..4 / 5..7, pending bits zero / non-zero) and equals BIP173's rule at every point.",
+ "C08": " Round 7: a result ignored together with its error is not used afterwards.",
+ "C09": " Round 7 and sweep: the locked section covers the whole read-modify-write (C20's clauses); an unloaded filter answers false and a loaded filter with an empty bit array answers true, as constants on exactly those edges.",
+ "C10": " Round 7 and sweep: the recursive re-check passes on the spender index and the matched set unchanged; a loop of the matcher is left early only on an edge where a membership test answered true; the pushes of one script are walked by a real loop.",
+ "C11": " Round 7 and sweep: every path of the extraction helper consumes a flag bit before it looks at a hash; the flag bits are packed eight to a byte.",
+ "C13": " Round 7 and sweep: BuildGCSFilter refuses P only above 32 and N only from 2^32; a query function answers the constant true only where a decoded value equals a query value (integer equality or positive index lookup); an inverted error test that returns nil with a nil error is refused.",
+ "C14": " Sweep: the range reduction is proved equal to floor(v*(nHi*2^32+nLo)/2^64) by exact polynomial normalisation of its limb arithmetic over 32-bit digits and floor terms, no intermediate wrapping at 2^64; the fluent builder's SetP/SetM refuse only outside their ranges; an inverted error test in the serialisers / hash functions is refused. Round 7: the From* constructors refuse P / N only outside their ranges; the content loop of the block-filter builder is left only at exhaustion; every serialisation forwards the stored bytes.",
+ "C15": " Round 7: Zero() wipes each field exactly once and leaves the struct unusable.",
+ "C16": " Round 7: the index setter stores its argument; the accessor loop that wraps the transactions has no early exit.",
+}
+for k, v in ADDED7.items():
     CHECKS[k]["text"] += v
 CHECKS["C08"]["text"] = CHECKS["C08"]["text"].replace("For all 73 in-repo functions", "For all in-repo functions").replace("(5 named exceptions, each with a premise the prover still checks)", "(named exceptions, each with a premise the prover still checks)")
 
